@@ -33,6 +33,7 @@ BBS_FILES = [
     ("src/errors.rs", "errors"),
 ]
 CL_FILES = [
+    ("src/keys/pair.rs", "keys::pair"),
     ("src/utils/util.rs", "utils::util"),
     ("src/utils/random.rs", "utils::random"),
     ("src/utils/message.rs", "utils::message"),
@@ -480,6 +481,58 @@ def gen_ciphersuite_trait(items, out):
     out.add("}", kind="glue")
 
 
+def gen_cl_ciphersuite_trait(items, out):
+    """CLCiphersuite: assoc consts of the real trait; a const whose defining expression is textually the same in
+    every impl becomes a fact of `consts_facts`; otherwise the fact is the disjunction of the impls' values."""
+    tr = items.get("cl03::ciphersuites::CLCiphersuite")
+    if tr is None:
+        raise Undecided("lost-anchor", "trait CLCiphersuite not found")
+    rel = os.path.relpath(tr["file"], REPO)
+    vals = {}
+    for p, it in items.items():
+        if it["kind"] == "impl_const" and "@CLCiphersuite::" in p:
+            m = re.match(r"^\s*const\s+(\w+)\s*:\s*([^=]+?)\s*=\s*(.*?);", " ".join(it["text"].split()))
+            if m:
+                vals.setdefault(m.group(1), []).append((m.group(2), m.group(3)))
+    out.add("pub trait Ciphersuite { type HashAlg; }", kind="glue")
+    out.add("pub trait CLCiphersuite: Sized + Ciphersuite {", kind="glue", src=f"{rel}:{tr['line']}")
+    facts = []
+    for c in tr["consts"]:
+        out.add(f"    const {c['name']}: {c['ty']};", kind="glue", src=f"{rel}:{tr['line']}")
+        if c["ty"].strip() != "u32":
+            continue
+        vs = vals.get(c["name"], [])
+        exprs = sorted({v for _, v in vs})
+        if len(exprs) == 1:
+            facts.append(f"Self::{c['name']} == {exprs[0]}")
+        elif exprs and all(re.match(r"^\d+$", e) for e in exprs):
+            facts.append("(" + " || ".join(f"Self::{c['name']} == {e}" for e in exprs) + ")")
+    out.add("    /// values of the real impls (CL1024/2048/3072): equal defining expressions become equalities, differing literals a disjunction", kind="glue")
+    out.add("    proof fn consts_facts()", kind="glue")
+    out.add("        ensures", kind="glue")
+    for f in facts:
+        out.add(f"            {f},", kind="glue")
+    out.add("    ;", kind="glue")
+    out.add("}", kind="glue")
+
+
+GLUE_CL = """
+pub trait Scheme: Sized { type Ciphersuite: Ciphersuite; type PrivKey; type PubKey; }
+pub struct CL03<CS: CLCiphersuite>(pub core::marker::PhantomData<CS>);
+impl<CS: CLCiphersuite> Scheme for CL03<CS> { type Ciphersuite = CS; type PrivKey = CL03SecretKey; type PubKey = CL03PublicKey; }
+"""
+
+CL_TYPES = [
+    "cl03::keys::CL03PublicKey", "cl03::keys::CL03SecretKey", "cl03::keys::CL03CommitmentPublicKey", "cl03::bases::Bases",
+    "utils::message::cl03_message::CL03Message", "cl03::signature::CL03Signature", "cl03::commitment::CL03Commitment",
+    "cl03::blind::CL03BlindSignature", "cl03::range_proof::RangeProof", "cl03::range_proof::ProofSs", "cl03::range_proof::ProofOfS",
+    "cl03::range_proof::ProofLi", "cl03::range_proof::ProofWt", "cl03::range_proof::Boudot2000RangeProof",
+    "cl03::sigma_protocols::NISP2Commitments", "cl03::sigma_protocols::NISPSecrets", "cl03::sigma_protocols::NISPMultiSecrets",
+    "cl03::sigma_protocols::NISPSignaturePoK", "cl03::proof::CL03PoKSignature", "cl03::proof::CL03ZKPoK", "cl03::proof::ProofOfValue",
+    "schemes::generics::Signature", "schemes::generics::Commitment", "schemes::generics::BlindSignature",
+    "schemes::generics::PoKSignature", "schemes::generics::ZKPoK", "keys::pair::KeyPair",
+]
+
 GLUE_SCHEME = """
 pub trait Scheme: Sized { type PrivKey; type PubKey; }
 pub struct BBSplus<CS: BbsCiphersuite>(pub core::marker::PhantomData<CS>);
@@ -511,11 +564,18 @@ def assemble(unit, items=None, twin=False):
     if unit.get("broadcast"):
         out.add("broadcast use {" + ", ".join(unit["broadcast"]) + "};", kind="prelude")
     # glue
+    if family == "cl":
+        out.add("use super::shim::Integer;", kind="prelude")
+        out.add("use core::cmp::Ordering;", kind="prelude")
     if family == "bbs":
         gen_ciphersuite_trait(items, out)
+    else:
+        gen_cl_ciphersuite_trait(items, out)
     # types
     if family == "bbs" and "types" not in unit:
         unit["types"] = list(BBS_TYPES)
+    if family == "cl" and "types" not in unit:
+        unit["types"] = [t for t in CL_TYPES if t in items] + list(unit.get("extra_types", []))
     for tp in unit.get("types", []):
         it = items.get(tp)
         if it is None:
@@ -532,6 +592,8 @@ def assemble(unit, items=None, twin=False):
             pass
     if family == "bbs" and unit.get("scheme_glue", True):
         out.add(GLUE_SCHEME, kind="glue")
+    if family == "cl":
+        out.add(GLUE_CL, kind="glue")
     for sf in unit.get("specs", []):
         out.add_file(os.path.join(VERIF, "specs", sf), "spec")
     for sf in unit.get("code_shims", []):
@@ -583,6 +645,8 @@ def assemble(unit, items=None, twin=False):
                 out.add("#[verifier::external_body]", kind="assumed-body", fn=p)
                 sub_markers(it, c, out, assume=True)
             else:
+                if p in unit.get("exec_no_decreases", []):
+                    out.add("#[verifier::exec_allows_no_decreases_clause]", kind="glue", fn=p)
                 sub_markers(it, c, out, twin=twin_list)
                 nverify += 1
         if hdr:
